@@ -275,14 +275,23 @@ inline sim::Plan genPlan(uint64_t seed, const std::string &profile, bool thoroug
     if (longRun) { nops = 1100 + (int)r.below(1600); pNoSweep = 880; pSnap = 0; pPersist = 0; pReplica = profile == "C06" ? 3 : 0; pReject = 0; p.cfg["long"] = 1; }
     p.cfg["p_nosweep"] = pNoSweep;
     p.cfg["p_reject"] = pReject; p.cfg["p_snapshot"] = pSnap; p.cfg["p_persist"] = pPersist; p.cfg["p_replica"] = pReplica; p.cfg["p_alg"] = pAlg; p.cfg["p_io"] = pIo;
-    GenCfg gc = makeGenCfg(kind, directed, force && !forceMix, r, true, profile == "C03" ? 3 : 1);
+    GenCfg gc = makeGenCfg(kind, directed, force && !forceMix, r, true, profile == "C03" ? 3 : 1, extreme);
     gc.hub = hub;
-    gc.extreme = extreme;
     sim::Op prev;
-    if (large) { // bursts: the hub(s) are connected to (almost) every vertex first, in a seeded rotation and orientation
+    if (large) { // bursts: the hub(s) are connected to (almost) every vertex first, in a seeded rotation and orientation;
+        // sometimes the hub is then wiped by a bulk removal and populated again (state left behind by the first population
+        // meets thresholds crossed by the second)
         int hubs = 1 + (int)r.below(2);
+        const bool wipe = !force && r.pm(350);
+        if (wipe) hubs = 2;
         for (int h = 0; h < hubs; ++h) {
-            const int64_t hv = h == 0 ? hub : (int64_t)r.below((uint64_t)p.n0);
+            if (wipe && h == 1) {
+                sim::Op w;
+                w.k = r.pm(700) ? "remvert" : "clear";
+                w.a = hub; w.b = hub; w.y = r.pm(500) ? F_NOSWEEP : 0;
+                p.ops.push_back(w);
+            }
+            const int64_t hv = (h == 0 || wipe) ? hub : (int64_t)r.below((uint64_t)p.n0);
             const int64_t rot = (int64_t)r.below((uint64_t)p.n0);
             const unsigned skip = (unsigned)r.below(150);
             const bool down = r.pm(500);
